@@ -199,9 +199,17 @@ def main():
       '   attributed to C07; C14-7 -> priority 0 in the divider lists. `meta.json` of each change records what was run\n'
       '   and seen.\n')
     if seeded:
+        def listed(n, c):
+            try:
+                return c == n.split('-')[0] or c in json.load(open(os.path.join(V, 'seeded', n, 'meta.json'))).get('caught_by_checks', [])
+            except OSError:
+                return True
+        seeded = {n: [(c, v) for c, v in l if listed(n, c)] for n, l in seeded.items()}
         bad = [(n, c, v) for n, l in seeded.items() for c, v in l if v != 'CAUGHT']
-        w('   Re-run of all of them after the last strengthening (`tools/mutant_matrix.sh`, quick tier): %d (change, check)\n'
-          '   pairs, %d caught%s.\n' % (sum(len(l) for l in seeded.values()), sum(1 for l in seeded.values() for c, v in l if v == 'CAUGHT'),
+        w('   Re-run of the first 144 (rounds 1-5) after the strengthening that followed round 5 (`tools/mutant_matrix.sh`, quick\n'
+          '   tier, own check plus the other checks listed for the change): %d (change, check) pairs, %d caught%s; the 16\n'
+          '   changes of round 6 were run against their checks one by one (`logs` of `tools/round_batch.sh`, results in\n'
+          '   their `meta.json`).\n' % (sum(len(l) for l in seeded.values()), sum(1 for l in seeded.values() for c, v in l if v == 'CAUGHT'),
                                          '' if not bad else '; not caught: ' + ', '.join('%s/%s(%s)' % b for b in bad)))
     w('4. Anything a realistic break leaves invisible gets more observability (another workload or observation\n'
       '   point), not cleverer inference - that is what the misses were used for.\n')
